@@ -134,13 +134,25 @@ theorem mem_register_deps (q : Parser) (c x : Name) : x ∈ (q.register c).deps 
     · rintro (h' | h')
       · exact h'
       · exact h' ▸ h
-  · simp
+  · simp only [List.mem_cons]
+    exact Or.comm
 
 theorem register_idem (q : Parser) (c : Name) : (q.register c).register c = q.register c := by
   have : c ∈ (q.register c).deps := (mem_register_deps q c c).mpr (Or.inr rfl)
   generalize q.register c = r at this ⊢
   unfold Parser.register
   rw [if_pos this]
+
+theorem push_name (q : Parser) (c : Name) : (q.push c).name = q.name := rfl
+theorem push_internal (q : Parser) (c : Name) : (q.push c).internal = q.internal := rfl
+theorem push_opts (q : Parser) (c : Name) : (q.push c).opts = q.opts := rfl
+theorem mem_push_deps (q : Parser) (c x : Name) : x ∈ (q.push c).deps ↔ x ∈ q.deps ∨ x = c := by
+  simp only [Parser.push, List.mem_cons]
+  exact Or.comm
+
+theorem register_eq_push {q : Parser} {c : Name} (h : c ∉ q.deps) : q.register c = q.push c := by
+  unfold Parser.register Parser.push
+  rw [if_neg h]
 
 /-- the per-parser effect of one parent -/
 def regOne (c p : Name) (q : Parser) : Parser :=
@@ -155,10 +167,6 @@ theorem foldl_regParent (c : Name) (parents : List Name) (ps : List Parser) :
   | cons p rest ih =>
     simp only [List.foldl_cons, ih, regParent_eq, List.map_map]
     rfl
-
-/-- does some parent of the new command concern `q`? -/
-def touches (parents : List Name) (q : Parser) : Bool :=
-  parents.any (fun p => decide (q.name = p ∨ p ∈ q.deps))
 
 theorem touches_register {parents : List Name} {c : Name} (hc : c ∉ parents) (q : Parser) :
     touches parents (q.register c) = touches parents q := by
@@ -255,7 +263,7 @@ theorem declare_ok_iff (std : List OptSpec) (ps : List Parser) (d : Decl) :
 
 theorem declare_eq (std : List OptSpec) (ps : List Parser) (d : Decl)
     (h1 : d.name ≠ []) (h2 : d.name ∉ names ps) (h3 : ∀ p ∈ d.parents, p ∈ names ps) :
-    declare std ps d = .ok (ps.map (fun q => if touches d.parents q then q.register d.name else q) ++
+    declare std ps d = .ok (ps.map (fun q => if touches d.parents q then q.push d.name else q) ++
       [{ name := d.name, internal := d.internal, deps := [], opts := std }]) := by
   have hc : d.name ∉ d.parents := fun h => h2 (h3 _ h)
   have h3' : ¬ d.parents.any (fun p => !(names ps).contains p) = true := by
@@ -263,7 +271,31 @@ theorem declare_eq (std : List OptSpec) (ps : List Parser) (d : Decl)
     rintro ⟨p, hp, hn⟩
     exact hn (h3 p hp)
   unfold declare
-  rw [if_neg h1, if_neg h2, if_neg h3', foldl_regParent_eq _ _ hc]
+  rw [if_neg h1, if_neg h2, if_neg h3']
+
+/-- the one-pass `declare` is the parent-by-parent loop of the code, as long as the new name is not
+already somebody's dependent (true in every reachable state: dependents are declared names) -/
+theorem declareByParent_eq (std : List OptSpec) (ps : List Parser) (d : Decl)
+    (hfresh : ∀ q ∈ ps, d.name ∉ q.deps) : declareByParent std ps d = declare std ps d := by
+  unfold declareByParent declare
+  by_cases h1 : d.name = []
+  · simp [h1]
+  by_cases h2 : d.name ∈ names ps
+  · simp [h1, h2]
+  by_cases h3 : d.parents.any (fun p => !(names ps).contains p) = true
+  · simp only [h1, h2, h3, if_true, if_false]
+  · have hc : d.name ∉ d.parents := by
+      intro h
+      apply h3
+      simp only [List.any_eq_true, Bool.not_eq_true', List.contains_eq_mem, decide_eq_false_iff_not]
+      exact ⟨d.name, h, h2⟩
+    rw [if_neg h1, if_neg h2, if_neg h3, if_neg h1, if_neg h2, if_neg h3, foldl_regParent_eq _ _ hc]
+    congr 2
+    apply List.map_congr_left
+    intro q hq
+    split
+    · exact register_eq_push (hfresh q hq)
+    · rfl
 
 theorem inv_step {std : List OptSpec} {pre : List Decl} {ps : List Parser} (hinv : Inv std pre ps) (d : Decl)
     (h1 : d.name ≠ []) (h2 : d.name ∉ names ps) (h3 : ∀ p ∈ d.parents, p ∈ names ps) :
@@ -274,12 +306,12 @@ theorem inv_step {std : List OptSpec} {pre : List Decl} {ps : List Parser} (hinv
   have hpar : ∀ p ∈ d.parents, p ∈ dnames pre := fun p hp => hn ▸ h3 p hp
   have hanc := anc_snoc hinv.closed hfresh hpar
   refine ⟨?_, closed_snoc hinv.closed hpar, ?_, ?_⟩
-  · have : skel (ps.map (fun q => if touches d.parents q then q.register d.name else q)) = skel ps := by
+  · have : skel (ps.map (fun q => if touches d.parents q then q.push d.name else q)) = skel ps := by
       simp only [skel, List.map_map]
       apply List.map_congr_left
       intro q _
       simp only [Function.comp]
-      split <;> simp [register_name, register_internal]
+      split <;> simp [push_name, push_internal]
     simp only [skel, dskel, List.map_append] at this ⊢
     rw [this]
     have := hinv.skel
@@ -292,7 +324,7 @@ theorem inv_step {std : List OptSpec} {pre : List Decl} {ps : List Parser} (hinv
       have hd := hinv.deps q hq
       rw [hanc]
       by_cases ht : touches d.parents q = true
-      · simp only [ht, if_true, mem_register_deps, register_name, hd]
+      · simp only [ht, if_true, mem_push_deps, push_name, hd]
         constructor
         · rintro (h | h)
           · exact Or.inl h
@@ -331,7 +363,7 @@ theorem inv_step {std : List OptSpec} {pre : List Decl} {ps : List Parser} (hinv
     rcases List.mem_append.mp hq' with hq' | hq'
     · obtain ⟨q, hq, rfl⟩ := List.mem_map.mp hq'
       split
-      · rw [register_opts]; exact hinv.opts q hq
+      · rw [push_opts]; exact hinv.opts q hq
       · exact hinv.opts q hq
     · simp at hq'; subst hq'; rfl
 
